@@ -791,6 +791,31 @@ func c18Rates(t *testing.T, tr *Trace, rng *Rng, a *c18App) {
 		}
 		tr.Line("lr.rates", f...)
 		tr.Count("rates:" + o)
+		if o == "ok" && rng.Chance(25) {
+			// ReBalanceStableRates on a stable borrow of this asset: stable rates at both 20-point boundaries, their neighbours, random
+			k.SetLendPair(ctx, lendtypes.Extended_Pair{Id: 1, AssetIn: assetID, AssetOut: assetID, AssetOutPoolID: poolID})
+			ulp := sdk.NewDecWithPrec(1, 18)
+			p1 := sdk.MustNewDecFromStr(lendtypes.Perc1)
+			for _, S := range []sdk.Dec{bs.Add(p1), bs.Add(p1).Sub(ulp), bs.Sub(p1), bs.Sub(p1).Add(ulp), bs, c18Dec(c18Rate(rng))} {
+				if S.IsNegative() {
+					continue
+				}
+				var nb lendtypes.BorrowAsset
+				var err error
+				panicked, _ := try(func() { nb, err = k.ReBalanceStableRates(ctx, lendtypes.BorrowAsset{ID: 1, PairID: 1, IsStableBorrow: true, StableBorrowRate: S}) })
+				ro := c18Outcome(panicked, err)
+				res := "-"
+				if ro == "ok" {
+					res = c18Raw(nb.StableBorrowRate)
+					if nb.StableBorrowRate.Equal(S) {
+						tr.Count("rebalance:kept")
+					} else {
+						tr.Count("rebalance:snapped")
+					}
+				}
+				tr.Line("lr.rebalance", c18Raw(S), c18Raw(bs), c18Raw(uu), ro, res)
+			}
+		}
 	}
 	// realise utilisation uRaw/10^18 exactly: borrowed = uRaw, balance = 10^18 - uRaw
 	atU := func(p [8]*big.Int, uRaw int64) {
